@@ -40,8 +40,8 @@ def seeded():
         cut = lambda s, n: (s[:n - 1] + "…") if len(s) > n else s
         summ = cut(str(meta.get("summary", "")).replace("\n", " ").replace("|", "/"), 200)
         needs = cut(str(meta.get("needs", "")).replace("\n", " ").replace("|", "/"), 160)
-        note = meta.get("status_note")
-        rows.append("| %s%s | %s | %s | %s |" % (mid, "" if ver.get("confirmed") else (" (superseded)" if note else " (unconfirmed)"), summ, needs,
+        note = meta.get("status_note") or meta.get("limit_note")
+        rows.append("| %s%s | %s | %s | %s |" % (mid, "" if ver.get("confirmed") else (" (superseded)" if meta.get("status_note") else " (unconfirmed)"), summ, needs,
                                                  ", ".join(caught) + ((" — " + cut(note, 230)) if note else "")))
     return "\n".join(rows)
 
